@@ -95,9 +95,28 @@ type Replay struct {
 	Scheme int `json:"scheme,omitempty"`
 	// Backpressure: instead of a scripted history, the back-pressure scenario (see runBackpressure)
 	Backpressure bool `json:"backpressure,omitempty"`
+	// Sched / Runs: the back-pressure scenario with a SCHEDULED consumer (see genSchedCase / runBackpressure):
+	// Runs[k] = what DA height boot+k holds, as runs of genuine headers / genuine data; Sched = what the stand-in
+	// for the sync loop does, round by round: it stays away for StallMs, then takes TakeH / TakeD events (-1 = all
+	// there are).  Empty Sched = the fixed scenario of earlier replays (everything taken every 5 s).
+	Sched []Round `json:"sched,omitempty"`
+	Runs  [][]Run `json:"runs,omitempty"`
 	// Ticks: the tick scenario (see genTickCase): a long DA, History = wake-ups sent while the loop is quiescent,
 	// DA-block ticks arrive DURING the iterations (Out.Tick); checked against the two-channel loop model (lturn)
 	Ticks bool `json:"ticks,omitempty"`
+}
+
+// Round: one round of the consumer of the event channels.
+type Round struct {
+	StallMs int `json:"stall_ms"`
+	TakeH   int `json:"take_h"`
+	TakeD   int `json:"take_d"`
+}
+
+// Run: N consecutive genuine blobs of one kind ("H" headers / "D" signed data) on a DA height.
+type Run struct {
+	K string `json:"k"`
+	N int    `json:"n"`
 }
 
 func (rp *Replay) boot() uint64 {
@@ -990,6 +1009,315 @@ func runBackpressure(t *testing.T, p *pool, rp *Replay) (viol, what []string, st
 	return
 }
 
+// ---- back-pressure with a scheduled consumer ------------------------------------------------------------
+//
+// The same situation with the consumer as an INPUT: the DA heights hold runs of genuine headers / data
+// (rp.Runs; more than the channels hold), the stand-in for the sync loop follows rp.Sched: it stays away for
+// StallMs (50 ms ... 20 min of virtual time: a sync loop that keeps up, one that executes a slow block, one
+// that is stuck for minutes), then takes TakeH / TakeD events (a few, many, all, or none from one channel).
+// When the schedule is used up the consumer takes everything once per second until nothing moves any more.
+// At every round, with the loop quiescent (idle or blocked in a hand-off), the cursor and the fill of both
+// channels are recorded: compared with the bounded hand-off model (Model/RetrieverQueue.v qrun) by
+// Check/RetrieverQueueCheck.v, and judged by the Go oracle: nothing of a height below the cursor may be
+// missing from what was handed over so far; at the end every genuine blob was handed over exactly once, in
+// DA order, and the cursor is past the last height.
+type qobs struct {
+	Round                int
+	StallMs, WantH, WantD int // the round as executed (-1 = all)
+	Cursor               uint64
+	LH, LD               int // fill of headerInCh / dataInCh with the loop quiescent, before the consumer takes
+}
+
+type schedResult struct {
+	viol, what []string
+	failRound  int // round at which the first violation was seen (-1: at the end)
+	stats      map[string]int
+	obs        []qobs
+	capH, capD int
+	err        string
+}
+
+func schedLayout(p *pool, rp *Replay) [][]Seg {
+	r := caseRng(rp.Seed, rp.Case+7777)
+	var layout [][]Seg
+	for _, runs := range rp.Runs {
+		var segs []Seg
+		for _, ru := range runs {
+			for i := 0; i < ru.N; i++ {
+				if ru.K == "H" {
+					segs = append(segs, Seg{C: "H", I: r.Intn(nHdr)})
+				} else {
+					segs = append(segs, Seg{C: "D", I: r.Intn(nData)})
+				}
+			}
+		}
+		layout = append(layout, segs)
+	}
+	return layout
+}
+
+func runSched(t *testing.T, p *pool, rp *Replay) *schedResult {
+	sr := &schedResult{stats: map[string]int{}, failRound: -1}
+	curRound := -1
+	fail := func(sig, w string) {
+		for _, s := range sr.viol {
+			if s == sig {
+				return
+			}
+		}
+		if len(sr.viol) == 0 {
+			sr.failRound = curRound
+		}
+		sr.viol = append(sr.viol, sig)
+		sr.what = append(sr.what, w)
+	}
+	layout := schedLayout(p, rp)
+	boot := rp.boot()
+	var wantH, wantD []evt
+	perH, perD := make([]int, len(layout)), make([]int, len(layout))
+	synctest.Test(t, func(t *testing.T) {
+		ctx, cancel := context.WithCancel(context.Background())
+		defer cancel()
+		da := &scriptDA{boot: boot, cur: map[uint64]*Out{}, limit: 1 << 30}
+		for k, segs := range layout {
+			bl := p.expand(segs)
+			da.heights = append(da.heights, bl)
+			da.outs = append(da.outs, []Out{{K: "ok"}})
+			for _, b := range bl {
+				if b.cls == "H" {
+					wantH = append(wantH, evt{b.id, boot + uint64(k), ""})
+					perH[k]++
+				}
+				if b.cls == "D" {
+					wantD = append(wantD, evt{b.id, boot + uint64(k), p.dataTxs[b.id]})
+					perD[k]++
+				}
+			}
+		}
+		da.used = make([]int, len(layout))
+		m, err := newManager(ctx, p, &Replay{Start: rp.Start, Stored: rp.Stored, Scheme: rp.Scheme}, da)
+		if err != nil {
+			sr.err = err.Error()
+			return
+		}
+		capH, capD := cap(m.VerifHeaderInCh()), cap(m.VerifDataInCh())
+		sr.capH, sr.capD = capH, capD
+		dead := ""
+		done := make(chan struct{})
+		go func() {
+			defer close(done)
+			defer func() {
+				if x := recover(); x != nil {
+					dead = fmt.Sprint(x) + "\n" + firstFrames(string(debug.Stack()))
+				}
+			}()
+			m.RetrieveLoop(ctx)
+		}()
+		m.VerifRetrieveCh() <- struct{}{}
+		var gotH, gotD []evt
+		blocked, longBlocked := 0, 0
+		for round := 0; round < len(rp.Sched)+400; round++ {
+			curRound = round
+			rd := Round{StallMs: 1000, TakeH: -1, TakeD: -1}
+			if round < len(rp.Sched) {
+				rd = rp.Sched[round]
+			}
+			time.Sleep(time.Duration(rd.StallMs) * time.Millisecond)
+			synctest.Wait() // the loop is idle, dead, or blocked in a hand-off
+			cursor := m.VerifDAHeight()
+			lh, ld := len(m.VerifHeaderInCh()), len(m.VerifDataInCh())
+			sr.obs = append(sr.obs, qobs{round, rd.StallMs, rd.TakeH, rd.TakeD, cursor, lh, ld})
+			if lh == capH || ld == capD {
+				blocked++
+				if rd.StallMs > 30000 {
+					longBlocked++
+				}
+			}
+			needH, needD := 0, 0
+			for k := range layout {
+				if boot+uint64(k) < cursor {
+					needH += perH[k]
+					needD += perD[k]
+				}
+			}
+			if len(gotH)+lh < needH || len(gotD)+ld < needD {
+				fail("cursor-passed-unhanded-height-under-backpressure", fmt.Sprintf("round %d (consumer away for %d ms): cursor %d: heights below it hold %d headers / %d data, but only %d / %d were handed over so far", round, rd.StallMs, cursor, needH, needD, len(gotH)+lh, len(gotD)+ld))
+			}
+			if round >= len(rp.Sched) && lh == 0 && ld == 0 {
+				break
+			}
+			nh, nd := lh, ld
+			if rd.TakeH >= 0 && rd.TakeH < nh {
+				nh = rd.TakeH
+			}
+			if rd.TakeD >= 0 && rd.TakeD < nd {
+				nd = rd.TakeD
+			}
+			for i := 0; i < nh; i++ {
+				e := <-m.VerifHeaderInCh()
+				gotH = append(gotH, evt{p.hdrIDOf(e.Header.Hash().String()), e.DAHeight, ""})
+			}
+			for i := 0; i < nd; i++ {
+				e := <-m.VerifDataInCh()
+				gotD = append(gotD, p.dataEvt(e))
+			}
+		}
+		curRound = -1
+		sr.stats["rounds"] = len(sr.obs)
+		sr.stats["rounds-with-a-full-channel"] = blocked
+		sr.stats["rounds-with-a-full-channel-and-consumer-away-over-30s"] = longBlocked
+		sr.stats["genuine-headers-on-da"], sr.stats["genuine-data-on-da"] = len(wantH), len(wantD)
+		sr.stats["headers-handed"], sr.stats["data-handed"] = len(gotH), len(gotD)
+		if dead != "" {
+			fail("panic-under-backpressure", dead)
+		}
+		if msg := sameEvents(wantH, gotH); msg != "" {
+			fail("genuine-blob-dropped-under-backpressure", "headers: "+msg)
+		}
+		if msg := sameEvents(wantD, gotD); msg != "" {
+			fail("genuine-blob-dropped-under-backpressure", "data: "+msg)
+		}
+		if c := m.VerifDAHeight(); c != boot+uint64(len(layout)) {
+			fail("stalled-under-backpressure", fmt.Sprintf("after draining, the cursor is %d, want %d", c, boot+uint64(len(layout))))
+		}
+		cancel()
+		<-done
+	})
+	return sr
+}
+
+// genSchedCase: 3-5 DA heights holding together 10500-13000 genuine headers and as many genuine data (each
+// more than a channel holds), in runs of 1-3 / 4-60 / 61-900 / 901-4000 blobs of one kind; 8-20 consumer
+// rounds, the time away drawn per round from 50 ms-1 s / 1-10 s / 10-29 s / 31-120 s / 2-20 min, the number
+// taken per channel from none / 1-50 / 51-2000 / all.
+func genSchedCase(r *rand.Rand, seed int64, c int) *Replay {
+	rp := &Replay{Seed: seed, Case: c, Backpressure: true, Scheme: genScheme(r), Start: uint64(1 + r.Intn(5000))}
+	nh := 3 + r.Intn(3)
+	left := map[string]int{"H": 10500 + r.Intn(2500), "D": 10500 + r.Intn(2500)}
+	rp.Runs = make([][]Run, nh)
+	k := "H"
+	if r.Intn(2) == 0 {
+		k = "D"
+	}
+	for left["H"] > 0 || left["D"] > 0 {
+		if left[k] == 0 {
+			if k == "H" {
+				k = "D"
+			} else {
+				k = "H"
+			}
+		}
+		n := 0
+		switch x := r.Intn(10); {
+		case x < 2:
+			n = 1 + r.Intn(3)
+		case x < 5:
+			n = 4 + r.Intn(57)
+		case x < 9:
+			n = 61 + r.Intn(840)
+		default:
+			n = 901 + r.Intn(3100)
+		}
+		if n > left[k] {
+			n = left[k]
+		}
+		left[k] -= n
+		// any height: the runs of a height keep the order in which they were drawn
+		h := r.Intn(nh)
+		rp.Runs[h] = append(rp.Runs[h], Run{K: k, N: n})
+		if k == "H" {
+			k = "D"
+		} else {
+			k = "H"
+		}
+	}
+	stall := func() int {
+		switch r.Intn(5) {
+		case 0:
+			return 50 + r.Intn(950)
+		case 1:
+			return 1000 + r.Intn(9000)
+		case 2:
+			return 10000 + r.Intn(19000)
+		case 3:
+			return 31000 + r.Intn(89000)
+		}
+		return 120000 + r.Intn(1080000)
+	}
+	take := func() int {
+		switch r.Intn(4) {
+		case 0:
+			return 0
+		case 1:
+			return 1 + r.Intn(50)
+		case 2:
+			return 51 + r.Intn(1950)
+		}
+		return -1
+	}
+	for i, n := 0, 8+r.Intn(13); i < n; i++ {
+		rp.Sched = append(rp.Sched, Round{StallMs: stall(), TakeH: take(), TakeD: take()})
+	}
+	return rp
+}
+
+// shrinkSched: cut the schedule after the round that showed the violation, then make every earlier round short
+func shrinkSched(t *testing.T, p *pool, rp *Replay, sr *schedResult, sig string) *Replay {
+	has := func(x *schedResult) bool {
+		for _, s := range x.viol {
+			if s == sig {
+				return true
+			}
+		}
+		return false
+	}
+	cur := rp
+	if sr.failRound >= 0 && sr.failRound+1 < len(rp.Sched) {
+		c := *rp
+		c.Sched = append([]Round{}, rp.Sched[:sr.failRound+1]...)
+		if x := runSched(t, p, &c); x.err == "" && has(x) {
+			cur = &c
+		}
+	}
+	if len(cur.Sched) > 1 {
+		c := *cur
+		c.Sched = append([]Round{}, cur.Sched...)
+		for i := 0; i+1 < len(c.Sched); i++ {
+			c.Sched[i].StallMs = 100
+		}
+		if x := runSched(t, p, &c); x.err == "" && has(x) {
+			cur = &c
+		}
+	}
+	return cur
+}
+
+// qcaseCoq: the scheduled back-pressure case as a term of Check.RetrieverQueueCheck.qcase
+func qcaseCoq(rp *Replay, sr *schedResult) string {
+	var hs []string
+	for _, runs := range rp.Runs {
+		var rs []string
+		for _, ru := range runs {
+			rs = append(rs, fmt.Sprintf("(%v,%d)", ru.K == "H", ru.N))
+		}
+		hs = append(hs, "["+strings.Join(rs, ";")+"]")
+	}
+	var sched, obs []string
+	for _, o := range sr.obs {
+		th, td := o.WantH, o.WantD
+		if th < 0 {
+			th = sr.capH
+		}
+		if td < 0 {
+			td = sr.capD
+		}
+		sched = append(sched, fmt.Sprintf("(%d,%d,%d)", o.StallMs, th, td))
+		obs = append(obs, fmt.Sprintf("(%d,%d,%d)", o.Cursor, o.LH, o.LD))
+	}
+	return fmt.Sprintf("{| qc_cap_h := %d; qc_cap_d := %d; qc_boot := %d;\n     qc_heights := [%s];\n     qc_sched := [%s];\n     qc_obs := [%s] |}",
+		sr.capH, sr.capD, rp.boot(), strings.Join(hs, ";\n       "), strings.Join(sched, ";"), strings.Join(obs, ";"))
+}
+
 func sameEvents(want, got []evt) string {
 	if len(want) != len(got) {
 		return fmt.Sprintf("%d genuine blobs on the DA, %d events handed over", len(want), len(got))
@@ -1789,6 +2117,14 @@ func TestVerif(t *testing.T) {
 		}
 		// one back-pressure scenario per run (oracle only; not part of the Coq cases)
 		jobs = append(jobs, &Replay{Seed: e.Seed, Case: 0, Backpressure: true, Scheme: genScheme(caseRng(e.Seed, 7776))})
+		// back-pressure with a scheduled consumer: two cases per 300 (at least 2); part of the Coq cases
+		nq := e.N / 150
+		if nq < 2 {
+			nq = 2
+		}
+		for c := 0; c < nq; c++ {
+			jobs = append(jobs, genSchedCase(caseRng(e.Seed, 700000+c), e.Seed, 700000+c))
+		}
 		for c := 0; c < e.N; c++ {
 			jobs = append(jobs, nil)
 		}
@@ -1801,8 +2137,8 @@ func TestVerif(t *testing.T) {
 			jobs = append(jobs, genTickCase(caseRng(e.Seed, 500000+c), e.Seed, 500000+c, e.Tier))
 		}
 	}
-	var cases, tcases []string
-	var tReplays []*Replay
+	var cases, tcases, qcases []string
+	var tReplays, qReplays []*Replay
 	tickHeights, tickTicks, tickBoth, tickIters := 0, 0, 0, 0
 	distinct := map[string]bool{}
 	gen := 0
@@ -1822,6 +2158,43 @@ func TestVerif(t *testing.T) {
 		}
 		p := newPool(rand.New(rand.NewSource(rp.Seed*7919+int64(rp.Case)+17)), maxLarge, rp.Scheme)
 		res.Count("chain-signature-payload:" + schemeNames[rp.Scheme])
+		if rp.Backpressure && len(rp.Sched) > 0 {
+			sr := runSched(t, p, rp)
+			if sr.err != "" {
+				t.Fatalf("harness error: %s", sr.err)
+			}
+			res.Evaluations++
+			res.Count("case:back-pressure-scheduled-consumer")
+			for _, o := range sr.obs {
+				if o.Round >= len(rp.Sched) {
+					continue
+				}
+				full := o.LH == sr.capH || o.LD == sr.capD
+				away := "under-1s"
+				switch {
+				case o.StallMs > 120000:
+					away = "over-2min"
+				case o.StallMs > 30000:
+					away = "31s-2min"
+				case o.StallMs >= 10000:
+					away = "10-29s"
+				case o.StallMs >= 1000:
+					away = "1-10s"
+				}
+				res.Count(fmt.Sprintf("sched:round,consumer-away=%s,a-channel-full=%v", away, full))
+			}
+			for k, v := range sr.stats {
+				res.Distribution["sched:"+k] += v
+			}
+			distinct["Q"+fmt.Sprint(rp.Runs, rp.Sched)] = true
+			for vi, sig := range sr.viol {
+				sh := shrinkSched(t, p, rp, sr, sig)
+				res.Violations = append(res.Violations, vgen.Violation{Signature: sig, What: sr.what[vi], Case: ji, Replay: sh})
+			}
+			qcases = append(qcases, qcaseCoq(rp, sr))
+			qReplays = append(qReplays, rp)
+			continue
+		}
 		if rp.Backpressure {
 			viol, what, stats := runBackpressure(t, p, rp)
 			res.Evaluations++
@@ -1986,13 +2359,17 @@ func TestVerif(t *testing.T) {
 	for i, rp := range tReplays {
 		res.Replays[fmt.Sprint(len(cases)+i)] = rp // tick cases are numbered after the ordinary ones
 	}
+	for i, rp := range qReplays {
+		res.Replays[fmt.Sprint(len(cases)+len(tReplays)+i)] = rp // scheduled back-pressure cases come last
+	}
 	res.Distinct = len(distinct)
 	res.Rule = "real non-aggregator block.Manager (NewManager) on a scripted DA double; 1-6 (thorough 1-12) DA heights from max(stored, configured start), start heights from 0 to 2^62; per height 0-7 blobs or 100-500 blobs (several chunks, incl. exact multiples of 100) mixing real proposer-signed headers/data (ed25519; the tx list of a data blob has 1-5 transactions drawn per position from zero-length (26%), one byte (12%), repetition of an earlier one (14%), large 1.5-4.5 KB or 70-130 KB (8%), 8-31 random bytes (the rest) - lists of zero-length transactions only included; the tx lists of a case are pairwise distinct), the proposer's signature over a tx list that differs from the posted one by one zero-length entry (rejected), forgeries (foreign key claiming the proposer's address, rejected), signed data without txs / without metadata (ignored), and 16 kinds of junk (empty, random, truncated genuine, absurd length fields, other message types, foreign / corrupted / missing signatures, foreign key types, undecodable keys, trailing garbage, text); per height 0-4 scripted fetch outcomes (listing error with plain / not-found / from-the-future / both texts, nil listing, error on chunk i, ok) or runs of 9-13 errors, then usually ok; the node is built with the chain's SignaturePayloadProvider (ManagerOptions): the default one in half of the cases, otherwise one of two chain-specific ones (domain-separated SHA-256 digest of the header bytes; canonical sign-bytes encoding), the proposer's genuine headers and the forgeries are signed over the payload that provider defines, and two more header blobs per case carry the proposer's signature over the payload of ANOTHER provider than the chain's (not valid on this chain: rejected; the model computes admission from signer + signed payload + configured provider); histories of 1-6 items: wake-ups of the real RetrieveLoop under testing/synctest (80%) and direct calls of processNextDAHeaderAndData; some ids pre-marked seen. non-trivial = at least 3 DA calls and 2 heights; distinct = distinct Coq case terms; every data event is recorded with the tx list it carried (byte strings numbered per case, 0 = zero-length) and compared with the posted list by the oracle (handed-data-not-as-posted) and by the model (mismatch code 8)"
 	res.Rule += "; PLUS the tick scenario (one case per ten, at least 8): 100-400 (thorough up to 900) DA heights, 3/4 empty, the rest 1-3 blobs, a third of the cases served at once throughout, otherwise 6% of the heights with 1-3 retried errors, 1% not yet there (from the future), 0.5% with 10-12 errors, 2% confirmed not-found; the loop is woken 1-4 times while quiescent and the DA double sends DA-block ticks (non-blocking sends on retrieveCh) from inside GetIDs, i.e. while iterations run and the continuation token is outstanding (one tick only / 2% / 10% / 35% / every call), so that select finds both channels ready and takes either; compared call by call with the two-channel loop model (lturn), liveness oracle: the loop goes quiet only at a height it could not pass; distinct for these = distinct scripted inputs"
-	res.Cases = len(cases) + len(tcases)
-	header := "From Coq Require Import NArith List Bool.\nFrom Verif Require Import Model.Retriever Check.RetrieverCheck.\nOpen Scope N_scope."
+	res.Rule += "; PLUS back-pressure with a scheduled consumer (two cases per 300, at least 2): 3-5 DA heights holding together 10500-13000 genuine headers and as many genuine data (more than the 10000 slots of headerInCh / dataInCh) in runs of 1-4000 blobs of one kind; the real RetrieveLoop is woken once and the stand-in for the sync loop follows a schedule of 8-20 rounds: away for 50 ms-1 s / 1-10 s / 10-29 s / 31-120 s / 2-20 min of virtual time, then takes none / 1-50 / 51-2000 / all events per channel; then it drains once per second; at every round (loop quiescent) cursor and fill of both channels are compared with the bounded hand-off model (qrun), and the Go oracle demands: nothing of a height below the cursor missing from what was handed over, at the end every genuine blob handed over exactly once in DA order and the cursor past the last height"
+	res.Cases = len(cases) + len(tcases) + len(qcases)
+	header := "From Coq Require Import NArith List Bool.\nFrom Verif Require Import Model.Retriever Check.RetrieverCheck Model.RetrieverQueue Check.RetrieverQueueCheck.\nOpen Scope N_scope."
 	path := filepath.Join(e.Out, "cases_C09.v")
-	if err := writeCases(path, header, cases, tcases); err != nil {
+	if err := writeCases(path, header, cases, tcases, qcases); err != nil {
 		t.Fatal(err)
 	}
 	res.CaseFiles = []string{path}
@@ -2002,7 +2379,7 @@ func TestVerif(t *testing.T) {
 }
 
 // like vgen.WriteCases but without opening string_scope (the model has no strings; N literals are bare)
-func writeCases(path, header string, cases, tcases []string) error {
+func writeCases(path, header string, cases, tcases, qcases []string) error {
 	var sb strings.Builder
 	sb.WriteString(header)
 	sb.WriteString("\nImport ListNotations.\nOpen Scope list_scope.\n")
@@ -2030,6 +2407,13 @@ func writeCases(path, header string, cases, tcases []string) error {
 		sb.WriteString(fmt.Sprintf("Definition %s : tcase :=\n  %s.\n", name, c))
 	}
 	sb.WriteString(fmt.Sprintf("Definition tcases : list tcase := [%s].\n", strings.Join(tnames, "; ")))
-	sb.WriteString("Definition M := Eval vm_compute in (mismatches cases ++ tmismatches_from (N.of_nat (length cases)) tcases).\nPrint M.\nLemma cases_agree : M = [].\nProof. reflexivity. Qed.\n")
+	var qnames []string
+	for i, c := range qcases {
+		name := fmt.Sprintf("qcase_%d", i)
+		qnames = append(qnames, name)
+		sb.WriteString(fmt.Sprintf("Definition %s : qcase :=\n  %s.\n", name, c))
+	}
+	sb.WriteString(fmt.Sprintf("Definition qcases : list qcase := [%s].\n", strings.Join(qnames, "; ")))
+	sb.WriteString("Definition M := Eval vm_compute in (mismatches cases ++ tmismatches_from (N.of_nat (length cases)) tcases ++ qmismatches_from (N.of_nat (length cases + length tcases)) qcases).\nPrint M.\nLemma cases_agree : M = [].\nProof. reflexivity. Qed.\n")
 	return os.WriteFile(path, []byte(sb.String()), 0o644)
 }
